@@ -126,7 +126,14 @@ ErrText(st, v) ==
     ELSE IF D("D19_internal_error_text_static_name") /\ st.H[v.id].fn.raw THEN
         \* an error raised by the interpreter that reaches Run without passing through any try statement
         \* is formatted with the name of its constructor as built in, whatever the prototype's name is now
-        [und |-> FALSE, known |-> FALSE, name |-> st.H[v.id].fn.cname, text |-> <<>>]
+        \* (its message is the interpreter's own text, except for an error created with a known
+        \* message: D19_array_length_rangeerror_no_message creates one with the empty message)
+        (LET g == C!OM!GetProp(st.H, v.id, S_message)
+             cn == st.H[v.id].fn.cname
+         IN  IF g.has /\ g.d.k = "data" /\ g.d.v.t \in {"str", "undef"}
+             THEN LET ms == IF g.d.v.t = "undef" THEN <<>> ELSE g.d.v.s
+                  IN  [und |-> FALSE, known |-> TRUE, name |-> cn, text |-> IF ms = <<>> THEN cn ELSE cn \o S_colonSpace \o ms]
+             ELSE [und |-> FALSE, known |-> FALSE, name |-> cn, text |-> <<>>])
     ELSE
     \* [[Get]] of a data property (own or inherited) and ToString of a primitive: nothing here runs
     \* script code; an accessor or an object value leaves the modelled fragment
